@@ -1156,6 +1156,41 @@ def c_param_null_tested(ctx, cname, pos, depth=0):
     return True, True, ''
 
 
+# Methods whose behaviour depends on whether the optional argument was GIVEN even when the result of the call is not used (library reference): the helper that
+# receives NULL for "not given" has to look at the parameter.  (For a call whose result is used every optional argument is observable through the result.)
+ABSENT_OBSERVABLE = {
+    ('dict', 'pop'): 'd.pop(key) raises KeyError(key) for a missing key, d.pop(key, default) does not',
+    ('dict', 'setdefault'): 'the value stored for a missing key is the argument (None when omitted)',
+}
+
+
+def c_param_ignored(ctx, cname, pos):
+    """-> (known, [configuration descriptions in which the C function `cname` never reads its parameter #pos (no use at all, or only inside an
+    'unused variable' marker / a (void) cast)])"""
+    from . import pC15 as X
+    decls = [f for f in X.resolve_c(ctx.cat, cname, ('func',)) if f.body]
+    if not decls:
+        return False, []
+    out = []
+    for f in decls:
+        names = f.param_names()
+        if pos >= len(names) or not names[pos] or len(names) != len(f.params or []):
+            return False, []
+        p = re.escape(names[pos])
+        for cfg, text in X.pp_configs(f.expanded_body()):
+            if not _param_read_in(strip_c_comments(text), names[pos]):
+                out.append(cfg or 'default')
+    return True, out
+
+
+def _param_read_in(text, name):
+    """is the C identifier `name` read anywhere in `text` other than inside an unused-variable marker / a (void) cast"""
+    p = re.escape(name)
+    t = re.sub(r'\b(?:CYTHON_(?:MAYBE_)?UNUSED_VAR|Py_UNUSED|CYTHON_UNUSED)\s*\(\s*%s\s*\)' % p, '', text)
+    t = re.sub(r'\(\s*void\s*\)\s*%s\b' % p, '', t)
+    return bool(re.search(r'\b%s\b' % p, t))
+
+
 def rule_htab(ctx, floor=85):
     T = TBM
     r = Rule('C13-HTAB', 'method handlers of OptimizeBuiltinCalls run per number of arguments (tree-builder interpreter): arguments the caller omitted are filled with the '
@@ -1166,6 +1201,7 @@ def rule_htab(ctx, floor=85):
     cls = ix.cls('Optimize', 'OptimizeBuiltinCalls')
     gaveup = 0
     seen_null = set()
+    seen_ignored = set()
     _violate = r.violate
     reported = set()
 
@@ -1211,6 +1247,27 @@ def rule_htab(ctx, floor=85):
                                     r.violate('OptimizeBuiltinCalls.%s:null:%s:%d' % (hname, cname, i), mod.rel, fn.lineno,
                                               '%s passes NULL as argument %d of %s for a call with %d argument(s), but %s: the helper dereferences NULL (crash) where the '
                                               'method uses its default' % (hname, i + 1, cname, nargs, detail))
+                    # ---- NULL ("argument not given") only to a parameter the helper reads: a helper that ignores the parameter cannot tell m(a) from m(a, x)
+                    for i, a in enumerate(cargs):
+                        if isinstance(a, T.BNode) and a.cls == 'NullNode' and cname and i >= nargs and (cname, i, used) not in seen_ignored:
+                            seen_ignored.add((cname, i, used))
+                            known, cfgs = c_param_ignored(ctx, cname, i)
+                            if not known:
+                                continue
+                            r.inst('null-read:%s:%d:%s' % (cname, i, 'used' if used else 'unused'),
+                                   sample='%s passes NULL for the omitted argument %d to %s (result %s)' % (hname, i + 1, cname, 'used' if used else 'unused'))
+                            if not cfgs:
+                                continue
+                            why = 'the result of the call depends on it' if used else ABSENT_OBSERVABLE.get((tname, meth))
+                            if why is None:
+                                r.info('%s passes NULL for an omitted argument to %s, which ignores that parameter, for a call whose result is unused: %s.%s is not in the '
+                                       'table of methods whose omitted argument is observable without the result (not claimed)' % (hname, cname, tname, meth))
+                                continue
+                            r.violate('OptimizeBuiltinCalls.%s:null-ignored:%s:%d' % (hname, cname, i), mod.rel, fn.lineno,
+                                      '%s replaces %s.%s(...) called with %d argument(s)%s by %s and passes NULL for the omitted argument %d, but %s never reads that parameter '
+                                      '(configuration %s): the helper cannot tell the call without the argument from a call with it (%s), so the %d-argument form behaves '
+                                      'like the form with a default' % (hname, tname, meth, nargs, '' if used else ' whose result is unused', cname, i + 1, cname,
+                                                                        ', '.join('[%s]' % c for c in cfgs[:3]), why, nargs))
                     # ---- status-returning helper only when the result is unused
                     if used and meth in VALUE_METHODS and len(v.args) > 2:
                         rt = _owner_functype_return(ix, cls, v.args[2])
@@ -1279,7 +1336,12 @@ def rule_htab(ctx, floor=85):
     # positive control: dict.get with a NULL default against the real helper
     known, ok, _ = c_param_null_tested(ctx, '__Pyx_PyDict_GetItemDefault', 2)
     known2, ok2, _ = c_param_null_tested(ctx, '__Pyx_PyDict_Pop', 2)
-    r.positive_control(known and not ok and known2 and ok2, '__Pyx_PyDict_GetItemDefault does not test default_value (NULL would crash); __Pyx_PyDict_Pop does')
+    # (the tested-ness of __Pyx_PyDict_Pop itself is an obligation of the rule (null:__Pyx_PyDict_Pop:2), not part of the control: a helper that loses its test is a VIOLATION)
+    if not known2:
+        raise AnalysisError('C13-HTAB: __Pyx_PyDict_Pop is not in the utility catalogue')
+    r.positive_control(known and not ok and _param_read_in('PyObject *v; CYTHON_UNUSED_VAR(dflt); (void) dflt; v = f(d, key, Py_None); return v ? 0 : -1;', 'dflt') is False
+                       and _param_read_in('if (!r) { r = dflt; } return r;', 'dflt') is True,
+                       '__Pyx_PyDict_GetItemDefault does not test default_value (NULL would crash); a parameter that only occurs in unused-variable markers is not read, one that is assigned from is')
     return r
 
 
